@@ -72,12 +72,14 @@ Definition e_pg_pool (p : pg_pool) : list Z :=
 (* every observation row is prefixed by its length (see lib/corr.py split_obs) *)
 Definition frame (o : list Z) : list Z := n2z (length o) :: o.
 
+(* rows: 0 the Config, 1 what the harness put into $USER (not read), 2 env::var("USER"),
+   3 Config::new(), 4 Config::from_str(url) *)
 Definition run_pg (cfg : list Z) (rows : list (list Z)) : list Z :=
   let c := parse rd_pg_cfg (row rows 0) in
   let e := {| e_unix := negb (nthz cfg 1 =? 0);
-              e_new := parse rd_pg_obs (row rows 2);
-              e_url := parse (rd_opt rd_pg_obs) (row rows 3);
-              e_user := parse (rd_opt rd_str) (row rows 1);
+              e_new := parse rd_pg_obs (row rows 3);
+              e_url := parse (rd_opt rd_pg_obs) (row rows 4);
+              e_user := parse (rd_opt rd_str) (row rows 2);
               e_dflt_max := nthz cfg 2 |} in
   let rt := negb (nthz cfg 3 =? 0) in
   frame (e_pg_result (get_pg_config e c)) ++ frame (e_pg_builder (builder e c))
@@ -175,7 +177,9 @@ Fixpoint e_tree (t : tree) : list Z :=
          end) m
   end.
 
-(* cfg = [6; mode of the reader; what; kind of serialisation] *)
+(* cfg = [6; mode of the reader; what; kind of serialisation; source of the tree];
+   rows: 0 the value, 1 the tree that is read. The third row stands for the text round trip
+   of serde_json, which the harness checks by itself. *)
 Definition run_serde (cfg : list Z) (rows : list (list Z)) : list Z :=
   let m := if nthz cfg 1 =? 0 then Typed else Lenient in
   let what := nthz cfg 2 in
@@ -184,14 +188,15 @@ Definition run_serde (cfg : list Z) (rows : list (list Z)) : list Z :=
   if what =? 0 then
     let v := parse rd_pool (row rows 0) in
     frame (e_tree (if env then env_pool v else ser_pool v)) ++ frame (e_opt e_pool (de_pool m t))
+    ++ frame [1]
   else if what =? 1 then
     let v := parse rd_timeouts (row rows 0) in
     frame (e_tree (if env then env_timeouts v else ser_timeouts v))
-    ++ frame (e_opt e_timeouts (de_timeouts m t))
+    ++ frame (e_opt e_timeouts (de_timeouts m t)) ++ frame [1]
   else
     let v := parse rd_queue_mode (row rows 0) in
     frame (e_tree (if env then env_queue_mode v else ser_queue_mode v))
-    ++ frame (e_opt e_queue_mode (de_queue_mode m t)).
+    ++ frame (e_opt e_queue_mode (de_queue_mode m t)) ++ frame [1].
 
 (* ---------------------------------------------------------------- one case *)
 Definition run_case_z (x : list Z * list (list Z)) : list Z :=
